@@ -186,6 +186,7 @@ def make_world(variant):
     c.children = [a, d]
     d.parents = [c]
     d.features['feasible'] = True
+    d.state = Individual.State.IN_PROGRESS        # left 'in progress' by an exception its caller caught: still a recorded individual
     a.custom = {}
     b.custom = {"nested": {"list": [1, 2.5, None, True, "text"], "s": "x"}, "n": None}
     c.custom = {"k": [[-0.0, 5e-324], {"deep": [False]}]}
